@@ -217,11 +217,28 @@ pub fn decode_cbor(input: &[u8]) -> Result<Value, DecodeError> {
   decode_value(&mut decoder)
 }
 
+/// Pull the next header. A simple value below 32 spelled in the two-byte form
+/// (0xf8 followed by 0x00..=0x1f) is not well-formed (RFC 8949 3.3) and is
+/// reported as a syntax error.
+fn pull_header<R: ciborium_io::Read>(decoder: &mut Decoder<R>) -> Result<Header, DecodeError>
+where
+  ciborium_ll::Error<R::Error>: Into<DecodeError>,
+{
+  let start = decoder.offset();
+  let header = decoder.pull().map_err(Into::into)?;
+  if let Header::Simple(s) = header {
+    if s < 32 && decoder.offset() - start > 1 {
+      return Err(DecodeError::Syntax(start));
+    }
+  }
+  Ok(header)
+}
+
 fn decode_value<R: ciborium_io::Read>(decoder: &mut Decoder<R>) -> Result<Value, DecodeError>
 where
   ciborium_ll::Error<R::Error>: Into<DecodeError>,
 {
-  let header = decoder.pull().map_err(Into::into)?;
+  let header = pull_header(decoder)?;
   match header {
     Header::Positive(v) => Ok(Value::Integer(Integer::from(v))),
     Header::Negative(v) => {
@@ -380,7 +397,7 @@ where
       let mut items = Vec::new();
       loop {
         // Peek at the next header to check for break
-        let h = decoder.pull().map_err(Into::into)?;
+        let h = pull_header(decoder)?;
         if h == Header::Break {
           break;
         }
@@ -413,7 +430,7 @@ where
       // Indefinite-length map
       let mut entries = Vec::new();
       loop {
-        let h = decoder.pull().map_err(Into::into)?;
+        let h = pull_header(decoder)?;
         if h == Header::Break {
           break;
         }
